@@ -33,29 +33,32 @@ VARIABLES
   \* @type: Str;
   outcome,
   \* @type: Seq({op: Str, v: Int, lo: Int, hi: Int});
-  hist
-vars == <<lo, hi, rtol, table, outcome, hist>>
+  hist,
+  \* ghost: has anything been read since the last successful change (so that "read, then change" histories are explored)
+  \* @type: Bool;
+  touched
+vars == <<lo, hi, rtol, table, outcome, hist, touched>>
 
 Orders == 1..MaxOrd
 Init == /\ lo \in Orders /\ hi \in Orders /\ lo <= hi
-        /\ rtol = 1 /\ table = <<lo, hi>> /\ outcome = "ok"
+        /\ rtol = 1 /\ table = <<lo, hi>> /\ outcome = "ok" /\ touched = FALSE
         /\ hist = <<[op |-> "init", v |-> 0, lo |-> lo, hi |-> hi]>>
 \* @type: ({op: Str, v: Int}) => Bool;
 Log(e) == hist' = Append(hist, [op |-> e.op, v |-> e.v, lo |-> 0, hi |-> 0])
 
-Refuse(e) == outcome' = "ValueError" /\ UNCHANGED <<lo, hi, rtol, table>> /\ Log(e)
+Refuse(e) == outcome' = "ValueError" /\ UNCHANGED <<lo, hi, rtol, table, touched>> /\ Log(e)
 
 SetMin(v) == IF v >= 1 /\ v <= hi
-             THEN lo' = v /\ table' = <<v, hi>> /\ outcome' = "ok" /\ UNCHANGED <<hi, rtol>> /\ Log([op |-> "min_order", v |-> v])
+             THEN lo' = v /\ table' = <<v, hi>> /\ outcome' = "ok" /\ touched' = FALSE /\ UNCHANGED <<hi, rtol>> /\ Log([op |-> "min_order", v |-> v])
              ELSE Refuse([op |-> "min_order", v |-> v])
 SetMax(v) == IF v >= 1 /\ v >= lo
-             THEN hi' = v /\ table' = <<lo, v>> /\ outcome' = "ok" /\ UNCHANGED <<lo, rtol>> /\ Log([op |-> "max_order", v |-> v])
+             THEN hi' = v /\ table' = <<lo, v>> /\ outcome' = "ok" /\ touched' = FALSE /\ UNCHANGED <<lo, rtol>> /\ Log([op |-> "max_order", v |-> v])
              ELSE Refuse([op |-> "max_order", v |-> v])
 SetRtol(v) == IF v >= 1
-              THEN rtol' = v /\ outcome' = "ok" /\ UNCHANGED <<lo, hi, table>> /\ Log([op |-> "relative_tolerance", v |-> v])
+              THEN rtol' = v /\ outcome' = "ok" /\ touched' = FALSE /\ UNCHANGED <<lo, hi, table>> /\ Log([op |-> "relative_tolerance", v |-> v])
               ELSE Refuse([op |-> "relative_tolerance", v |-> v])
 \* integrate(): reads the table, changes nothing
-Integrate == outcome' = "ok" /\ UNCHANGED <<lo, hi, rtol, table>> /\ Log([op |-> "integrate", v |-> 0])
+Integrate == outcome' = "ok" /\ touched' = TRUE /\ UNCHANGED <<lo, hi, rtol, table>> /\ Log([op |-> "integrate", v |-> 0])
 
 NextStep == \/ \E v \in 0..MaxOrd : SetMin(v) \/ SetMax(v)
             \/ \E v \in 0..2 : SetRtol(v)
@@ -71,6 +74,6 @@ ExactDegree == 2 * lo - 1
 \* inductive (Apalache, spec/apalache/MC_Quadrature.tla): holds for setter sequences of any length
 IndInv == TableCurrent /\ RangeValid /\ hi <= MaxOrd /\ rtol \in 1..2 /\ outcome \in {"ok", "ValueError"}
 
-View == <<lo, hi, rtol, table, outcome>>
+View == <<lo, hi, rtol, table, outcome, touched>>
 Emit == PrintT(ToJson([h |-> hist', lo |-> lo', hi |-> hi', rtol |-> rtol', outcome |-> outcome', exact_degree |-> 2 * lo' - 1]))
 =============================================================================
